@@ -51,9 +51,9 @@ PSC::DataHolder &PointerDereferencer::resolve(PSC::Context &ctx) {
     }
 
     PSC::Pointer &ptr = ptrVar->get<PSC::Pointer>();
-    const PSC::Context *ptrCtx = ptr.getCtx();
+    unsigned long ptrCtxId = ptr.getCtxId();
     PSC::Context *tempCtx = &ctx;
-    while (tempCtx != ptrCtx) {
+    while (tempCtx->id != ptrCtxId) {
         tempCtx = tempCtx->getParent();
         if (tempCtx == nullptr)
             throw PSC::RuntimeError(token, ctx, "Attempting to access deleted object from pointer '" + ptrVar->name + "'");
